@@ -118,6 +118,27 @@ def err4(k0: int, k1: int, k2: int, k3: int) -> bool:
     return _ok(" ".join(A[_pick(k, 0, 19)] for k in (k0, k1, k2, k3)))
 
 
+# ---- valid Python fragments of unusual AST shape, in every place a factor can stand (incl. left of '~', where the parser also
+#      extracts the variables a fragment uses)
+
+PYFRAGS = ["f(x[0].y)", "{x[0].y}", '{"a".upper()}', "{(a+b).sum()}", "f(a)(b)", "{lambda q: q}", "{[i for i in a]}", "{a if b else c}", "{a.b.c}",
+           "f(*a, **k)", "{not a}", "{a @ b}", "{a[1:2, ::3]}", '{f"{a}"}', "{-a}", "{a < b < c}", "{(a := 1)}", "np.log(df.y[1:].values)",
+           "{a.b(c).d[0]}", "{...}", "{a, b}", "{1e3}", "{b'x'}", "{a is not None}", "f(a)[0](b).c"]
+PYCTX = ["{} ~ a", "a ~ {}", "{}", "{} + a | b", "[ {} ~ a ] + b", "{} : {}", "({}) ** 2", "a ~ b | {}", "{} | a ~ b"]
+PYFLAGS = [(), ("TWOSIDED",), ("MULTIPART",), ("TWOSIDED", "MULTIPART"), ("TWOSIDED", "MULTIPART", "MULTISTAGE"), ("MULTISTAGE",)]
+
+
+def pyfrag(i: int, c: int, fl: int, ii: bool) -> bool:
+    """
+    pre: 0 <= i < 25 and 0 <= c < 9 and 0 <= fl < 6 and i == __SHARD__
+    post: _
+    """
+    i, c, fl = _pick(i, 0, 24), _pick(c, 0, 8), _pick(fl, 0, 5)
+    s = PYCTX[c].replace("{}", PYFRAGS[i])
+    r = classify(s, PYFLAGS[fl], bool(ii))
+    return not r.startswith("escape") and r != "python-syntax"  # the fragments ARE valid Python: a SyntaxError is no excuse here
+
+
 # ---- feature flags: accepted under F  =>  accepted under ALL with equal terms, and the AST under ALL uses no operator F disables
 
 def _ast_ops(node, out, bracket=False):
@@ -226,6 +247,9 @@ def explain(fname, call):
         if fname in ("err3", "err4"):
             s = " ".join(CUT20[k] for k in a)
             return f"{classify(s)}: formula {s!r}"
+        if fname == "pyfrag":
+            s = PYCTX[a[1]].replace("{}", PYFRAGS[a[0]])
+            return f"{classify(s, PYFLAGS[a[2]], bool(a[3]))}: formula {s!r} (flags {PYFLAGS[a[2]]}, include_intercept={bool(a[3])})"
         if fname == "tokenizer_total":
             return f"tokenizer: tokenize({a[0]!r}) raises something other than FormulaSyntaxError"
         if fname == "flags3":
